@@ -86,6 +86,7 @@ def array_cfg(rng, tier, prop, families):
            "dim_names": V.DIM_NAMES[:rng.randint(2, 6)],
            "n_steps": rng.randint(25, 60) if long_ else rng.randint(5, 30)}
     cfg["min_len"] = min(cfg["min_len"], cfg["max_len"])
+    cfg["scenario_rate"] = {"C05": rng.choice([0.0, 0.1, 0.25]), "C15": rng.choice([0.0, 0.0, 0.1]), "C16": 0.0}[prop]
     return cfg
 
 
@@ -102,6 +103,6 @@ def all_ids():
     return sorted(_CHECKS)
 
 
-register(CheckDef("C15", "array", {"quick": {"runs": 24000, "wall": 75}, "thorough": {"runs": 1200000, "wall": 1100}}, "exploration"))
-register(CheckDef("C05", "array", {"quick": {"runs": 24000, "wall": 75}, "thorough": {"runs": 1200000, "wall": 1100}}, "exploration"))
-register(CheckDef("C16", "array", {"quick": {"runs": 24000, "wall": 75}, "thorough": {"runs": 1200000, "wall": 1100}}, "exploration"))
+register(CheckDef("C15", "array", {"quick": {"runs": 60000, "wall": 75}, "thorough": {"runs": 1200000, "wall": 1100}}, "exploration"))
+register(CheckDef("C05", "array", {"quick": {"runs": 60000, "wall": 75}, "thorough": {"runs": 1200000, "wall": 1100}}, "exploration"))
+register(CheckDef("C16", "array", {"quick": {"runs": 60000, "wall": 75}, "thorough": {"runs": 1200000, "wall": 1100}}, "exploration"))
